@@ -8,7 +8,9 @@ Property theorems only (helper lemmas: `JSight/Proofs/C19Build.lean`).
 
 Reading guide: `http_method_tags` / `rpc_method_tags` say that an accepted method directive appends one
 interaction `x` whose tags are the list `tagsFor` returns; `tagging_rule` (or, piecewise, `own_tags`,
-`url_tags`, `auto_tag` with `tags_directive_spec`) says what that list is.
+`url_tags`, `auto_tag` with `tags_directive_spec`) says what that list is.  `second_tags_refused` /
+`two_tags_never_accepted` (F72): the rule reads the FIRST Tags child of a context, and a second one is refused
+(`notUnique`) instead of being validated and ignored.
 -/
 namespace JSight.C19B
 open JSight JSight.Gen JSight.Build
@@ -263,6 +265,71 @@ theorem tagged_nonempty (d : BDir) (kids : List BDir) (anc : List Up) (c c' : Ca
   · obtain ⟨x, c1, h1, _, _, h4, _⟩ := rpc_method_tags d kids anc c c' h
     exact ⟨x, h1, tagsFor_nonempty _ _ _ _ _ _ h4⟩
 
+/-! ### one context has one Tags directive (F72) -/
+
+/-- **a second Tags directive in one context is refused**: `addDirective` on a Tags directive that is not the first
+Tags child of its parent fails with `notUnique`, whatever the catalog (before the repair the directive was validated
+and then ignored: `tagsFor` reads the first Tags child only) -/
+theorem second_tags_refused (banned : List Kind) (d : BDir) (kids : List BDir) (p : Up) (anc : List Up) (c : Cat)
+    (hk : d.kind = .Tags) (hb : ¬ banned.contains d.kind = true)
+    (t : BDir) (ht : tagsChild p.kids = some t) (hne : t.id ≠ d.id) :
+    addDirective banned d kids (p :: anc) c = .error ⟨d.id, .notUnique⟩ := by
+  unfold addDirective
+  rw [if_neg hb, hk]
+  show addTags d (p :: anc) c = _
+  have hs : secondTags d (p :: anc) = true := by
+    simp only [secondTags, ht, Option.map_some, bne_iff_ne, ne_eq, Option.some.injEq]
+    exact hne
+  unfold addTags
+  rw [if_pos hs]; rfl
+
+/-- … and the first one is not: the first Tags child of its parent is checked as before (its names must be declared),
+and the catalog is left as it is -/
+theorem first_tags_checked (banned : List Kind) (d : BDir) (kids : List BDir) (p : Up) (anc : List Up) (c : Cat)
+    (hk : d.kind = .Tags) (hb : ¬ banned.contains d.kind = true) (ht : tagsChild p.kids = some d) :
+    addDirective banned d kids (p :: anc) c = (tagsFromDirective c d).map (fun _ => c) := by
+  unfold addDirective
+  rw [if_neg hb, hk]
+  show addTags d (p :: anc) c = _
+  have hs : ¬ secondTags d (p :: anc) = true := by
+    simp [secondTags, ht]
+  unfold addTags
+  rw [if_neg hs]
+  exact bind_pure_eq_map _ _
+
+open JSight.C04B in
+/-- forest level: a forest with a Tags directive `e` that is not the first Tags child of its parent is never accepted
+(`e ∈ flatAF [] f`: the directive `e.d` of the forest with its children `e.kids` and its ancestors `e.anc`) -/
+theorem second_tags_never_accepted (banned : List Kind) (f : List BTree) (e : Ent) (he : e ∈ flatAF [] f)
+    (hk : e.d.kind = .Tags) (p : Up) (r : List Up) (ha : e.anc = p :: r)
+    (t : BDir) (ht : tagsChild p.kids = some t) (hne : t.id ≠ e.d.id) :
+    ∀ c, compile banned f ≠ .ok c := by
+  intro c h
+  obtain ⟨c₀, _, _, _, _, hrun, _⟩ := compile_ok h
+  refine run_fails_of_mem (fun _ => True) _ (fun _ _ _ _ _ _ => trivial) e he ?_ c₀ c trivial hrun
+  intro c₁ c₂ _ hs
+  unfold step at hs
+  by_cases hb : banned.contains e.d.kind = true
+  · unfold addDirective at hs; rw [if_pos hb] at hs; cases hs
+  · rw [ha, second_tags_refused banned e.d e.kids p r c₁ hk hb t ht hne] at hs; cases hs
+
+open JSight.C04B in
+/-- **two Tags directives in one context**: a forest in which some directive `m` (a method, a URL, …) has two Tags
+children with distinct ids is never accepted -/
+theorem two_tags_never_accepted (banned : List Kind) (f : List BTree) (m : Ent) (hm : m ∈ flatAF [] f)
+    (t₁ t₂ : BDir) (h₁ : t₁ ∈ m.kids) (h₂ : t₂ ∈ m.kids) (hk₁ : t₁.kind = .Tags) (hk₂ : t₂.kind = .Tags)
+    (hne : t₁.id ≠ t₂.id) : ∀ c, compile banned f ≠ .ok c := by
+  cases ht : tagsChild m.kids with
+  | none =>
+    have := List.find?_eq_none.1 ht t₁ h₁
+    simp [hk₁] at this
+  | some t =>
+    by_cases h : t.id = t₁.id
+    · obtain ⟨e, he, rfl, ha⟩ := kid_ent_forest [] f m hm t₂ h₂
+      exact second_tags_never_accepted banned f e he hk₂ _ _ ha t ht (by rw [h]; exact hne)
+    · obtain ⟨e, he, rfl, ha⟩ := kid_ent_forest [] f m hm t₁ h₁
+      exact second_tags_never_accepted banned f e he hk₁ _ _ ha t ht h
+
 /-- two paths get the same automatic tag name exactly when their first segments (`pathTagTitle`) agree -/
 theorem same_segment_same_tag (p₁ p₂ : Bytes) :
     tagName (pathTagTitle p₁) = tagName (pathTagTitle p₂) ↔ pathTagTitle p₁ = pathTagTitle p₂ :=
@@ -341,14 +408,44 @@ example : tagsOfInters (addHTTPMethod getDir [] [⟨{ urlDir with kind := .Macro
 
 /-- an undeclared name ("c") is rejected, at the Tags directive -/
 example : errOf (tagsFromDirective cat0 (tagsDir 5 [[97], [99]])) = some ⟨5, .tagNotFound⟩ := by decide +kernel
-example : errOf (addTags (tagsDir 5 [[99]]) cat0) = some ⟨5, .tagNotFound⟩ := by decide +kernel
+example : errOf (addTags (tagsDir 5 [[99]]) [⟨getDir, [tagsDir 5 [[99]]]⟩] cat0) = some ⟨5, .tagNotFound⟩ := by decide +kernel
 example : errOf (addHTTPMethod getDir [tagsDir 5 [[99]]] [⟨urlDir, [getDir]⟩] cat0) = some ⟨5, .tagNotFound⟩ := by
   decide +kernel
 example : errOf (addJsonRpcMethod methodDir [] [⟨urlDir, [protoDir, tagsDir 6 [[99]], methodDir]⟩] cat0)
     = some ⟨6, .tagNotFound⟩ := by decide +kernel
 /-- an automatic tag exists but is not declared: naming it in a Tags directive is rejected too -/
-example : errOf ((addHTTPMethod getDir [] [⟨urlDir, [getDir]⟩] cat0).bind (addTags (tagsDir 5 [[64, 112]])))
+example : errOf ((addHTTPMethod getDir [] [⟨urlDir, [getDir]⟩] cat0).bind
+    (addTags (tagsDir 5 [[64, 112]]) [⟨urlDir, [getDir, tagsDir 5 [[64, 112]]]⟩]))
     = some ⟨5, .tagNotFound⟩ := by decide +kernel
+
+/-! one context has one Tags directive: `JSIGHT 0.3`, `TAG @a`, `TAG @b`, `GET /x` with the children `Tags @a` (5),
+`Tags @b` (6), `200 []` (7) is refused at the second Tags directive; without it the forest is accepted, tagged "@a" -/
+private def exJ : BTree := .node { kind := .Jsight, id := 1, named := [("Version", [48, 46, 51])] } []
+private def exTAG (id : Nat) (n : Bytes) : BTree := .node { kind := .TAG, id := id, named := [("TagName", n)] } []
+private def exTagsT (id : Nat) (n : Bytes) : BTree := .node (tagsDir id [n]) []
+private def ex200 : BTree :=
+  .node { kind := .HTTPResponseCode, id := 7, keyword := [50, 48, 48], body := some [91, 93] } []
+private def exGetX : BDir := { kind := .Get, id := 4, named := [("Path", [47, 120])] }
+private def exTwo : List BTree := [exJ, exTAG 2 [64, 97], exTAG 3 [64, 98],
+  .node exGetX [exTagsT 5 [64, 97], exTagsT 6 [64, 98], ex200]]
+private def exOne : List BTree := [exJ, exTAG 2 [64, 97], exTAG 3 [64, 98], .node exGetX [exTagsT 5 [64, 97], ex200]]
+/-- the same two Tags directives below a URL -/
+private def exTwoURL : List BTree := [exJ, exTAG 2 [64, 97], exTAG 3 [64, 98],
+  .node { kind := .URL, id := 8, named := [("Path", [47, 120])] } [exTagsT 5 [64, 97], exTagsT 6 [64, 98],
+    .node { kind := .Get, id := 4 } [ex200]]]
+
+example : errOf (compile [] exTwo) = some ⟨6, .notUnique⟩ := by decide +kernel
+example : tagsOfInters (compile [] exOne) = some [[[64, 97]]] := by decide +kernel
+example : errOf (compile [] exTwoURL) = some ⟨6, .notUnique⟩ := by decide +kernel
+/-- the hypotheses of `two_tags_never_accepted` hold of `exTwo` (the GET directive is the entry `m`) -/
+example : ∀ c, compile [] exTwo ≠ .ok c :=
+  two_tags_never_accepted [] exTwo ⟨exGetX, [tagsDir 5 [[64, 97]], tagsDir 6 [[64, 98]], ex200.dir], []⟩
+    (List.mem_of_getElem? (i := 3) (by rfl)) (tagsDir 5 [[64, 97]]) (tagsDir 6 [[64, 98]])
+    (by simp) (by simp) rfl rfl (by decide)
+/-- … and of `second_tags_refused`: the step of `Tags @b` (6) below the GET directive, in any catalog -/
+example (c : Cat) : addDirective [] (tagsDir 6 [[64, 98]]) []
+      [⟨exGetX, [tagsDir 5 [[64, 97]], tagsDir 6 [[64, 98]], ex200.dir]⟩] c = .error ⟨6, .notUnique⟩ :=
+  second_tags_refused [] _ _ _ _ c rfl (by decide) (tagsDir 5 [[64, 97]]) (by decide +kernel) (by decide)
 
 end Examples
 
